@@ -306,3 +306,18 @@ reg('C04',
     level_text='The grammar-derived literal set is enumerated completely and every decoded bit pattern is compared with ground truth computed outside the C library.',
     level_note='rounding routine self-tested against Python float() (python3 mc/py_c04.py)',
     design_ref='DESIGN.md section 3 / C04')
+
+reg('C01',
+    title='no out-of-bounds access, undefined behaviour or hang on any input stream',
+    src='c01_memsafe.c',
+    configs={'quick': ['def', 'heap'], 'thorough': ['def', 'noinfo', 'heap', 'dtostre']},
+    deadline={'quick': 110, 'thorough': 1700},
+    level=MC,
+    technique='bounded-exhaustive enumeration of input byte strings x input-buffer sizes x segmentations x residues, executed on the real library under ASan + UBSan with exact-size heap blocks and a tail-poisoned input buffer',
+    rule={'quick': 'D1: every byte string of length <= 4 over 28 bytes (one per character class incl. NUL, 0x80, 0xFF) x every input-buffer size 2..len+2 x {whole, every single split point, one byte per call} + zero-length flush x {fresh context, 6 residues}, omnivore handlers applying every SCPI_ParamTo*/Expr*/Result*/ToStr API to every token; D2: "A <p> NL" for every p of length <= 4 over 20 bytes through the omnivore and each of 18 typed readers (two deliveries); D3: every D1 string NUL-terminated to SCPI_Parse; error ring of 2 entries; default and static-heap (9-byte heap) builds; non-trivial = (string, buffer size) case that reached a handler',
+          'thorough': 'strings of length <= 5 (length 5 with four buffer sizes), all four build configurations'},
+    assumptions=['bytes are represented by character class (28 representatives), not all 256 values',
+                 'memory safety is judged by ASan/UBSan on this x86-64 build; uninitialised reads are not detected (no MSan run)'],
+    level_text='Exhaustive over all short streams, all buffer sizes that can make any token end at or beyond the end of the buffer, all single-split segmentations and histories with six kinds of pending input; any sanitizer report, hang or out-of-range buffer position is a violation.',
+    level_note='the SCPI_PARSER_VERIF hook makes reads of stale bytes behind the logical end of input trap',
+    design_ref='DESIGN.md section 3 / C01')
